@@ -272,6 +272,25 @@ func cliCheckC10(sc cliMScenario, r cliMResult) (string, string) {
 				return "matcher", fmt.Sprintf("call %d returned datagram #%d, which its matcher rejects", i, idx)
 			}
 			if in.group < c.callGroup {
+				// the listed finding needs a race or a parked receive loop: the datagram was
+				// still unread when the call began.  When every event of the script ran to
+				// quiescence on its own and no matcher blocks, the loop had read and dropped it
+				// long before - returning it then is something else (seeded change C10-15: a
+				// receive loop started lazily by the first send)
+				quiet := true
+				for _, g := range sc.groups {
+					if len(g) > 1 {
+						quiet = false
+					}
+				}
+				for _, o := range sc.callers {
+					if o.gated {
+						quiet = false
+					}
+				}
+				if quiet {
+					return "stale-datagram-after-quiescence", fmt.Sprintf("call %d (made in group %d) returned datagram #%d, which reached the socket in group %d - an earlier group that had run to quiescence, with no matcher blocking anywhere: the receive loop had every chance to read and drop it", i, c.callGroup, idx, in.group)
+				}
 				return "stale-datagram", fmt.Sprintf("call %d (made in group %d) returned datagram #%d, which reached the socket before the call was made (group %d)", i, c.callGroup, idx, in.group)
 			}
 			if in.group > c.retGroup {
